@@ -389,6 +389,12 @@ impl Ctx {
                 }),
                 "NAuth AEmpty".into(),
             ),
+            // an Auth envelope that carries only an unknown field (field 15, empty): decodes with the oneof unset
+            "emptyu" => {
+                let mut b = 4u64.to_be_bytes().to_vec();
+                b.extend_from_slice(&[0x0a, 0x02, 0x7a, 0x00]);
+                (Err(b), "NAuth AEmpty".into())
+            }
             "name" => (
                 Ok(auth_frame(A::Name(pa::NameMessage {
                     name: self.names.name(u(w[1])),
